@@ -738,6 +738,10 @@ func genContract(g *genCtx, c *Contract, out *strings.Builder) error {
 		fmt.Fprintf(out, "\told_%d := %s\n", i, o)
 	}
 	for _, m := range c.Modifies {
+		if m == "*" {
+			out.WriteString("\tverifrt.ModifiesAll()\n")
+			continue
+		}
 		if strings.HasSuffix(m, "[*]") {
 			fmt.Fprintf(out, "\tverifrt.ModifiesElems(%s)\n", strings.TrimSuffix(m, "[*]"))
 		} else if strings.HasPrefix(m, "*") {
